@@ -501,6 +501,11 @@ def relate_parent_to_volume(ctx, fs, path_t, vol_t):
         ctx.assume(parent == z3.Concat(volp, rest))
         ctx.assume(z3.And(rest != SV(''), z3.Not(z3.PrefixOf(SV('/'), rest)),
                           z3.Not(z3.SuffixOf(SV('/'), rest))))
+        # no '..' component in rest (same lemma: parent has none)
+        ctx.assume(z3.And(rest != SV('..'),
+                          z3.Not(z3.PrefixOf(SV('../'), rest)),
+                          z3.Not(z3.SuffixOf(SV('/..'), rest)),
+                          z3.Not(z3.Contains(rest, SV('/../')))))
         spec.mark_noendslash(ctx, rest)
         spec.set_alias(ctx, parent, z3.Concat(volp, rest))
         ctx.ghost['rest'] = rest
@@ -525,13 +530,35 @@ def lemma_rest_of_clean_path(V):
     rest = z3.String('lemma.rest')
     V.ctx.assume(z3.And(z3.Not(z3.Contains(p, SV('//'))),
                         z3.Not(z3.SuffixOf(SV('/'), p)),
+                        z3.Not(z3.Contains(p, SV('/../'))),
+                        z3.Not(z3.SuffixOf(SV('/..'), p)),
                         p == z3.Concat(pre, rest),
                         z3.SuffixOf(SV('/'), pre)))
     return [('rest-not-empty', rest != SV('')),
+            ('rest-is-not-dotdot', rest != SV('..')),
+            ('rest-does-not-start-with-dotdot',
+             z3.Not(z3.PrefixOf(SV('../'), rest))),
+            ('rest-does-not-end-with-dotdot',
+             z3.Not(z3.SuffixOf(SV('/..'), rest))),
+            ('rest-has-no-dotdot-inside',
+             z3.Not(z3.Contains(rest, SV('/../')))),
             ('rest-does-not-start-with-slash',
              z3.Not(z3.PrefixOf(SV('/'), rest))),
             ('rest-does-not-end-with-slash',
              z3.Not(z3.SuffixOf(SV('/'), rest)))]
+
+
+def lemma_join_keeps_dotdot_out(V):
+    rest, base = z3.String('lemma.rest'), z3.String('lemma.base')
+    nd = lambda x: z3.And(x != SV('..'), z3.Not(z3.PrefixOf(SV('../'), x)),
+                          z3.Not(z3.SuffixOf(SV('/..'), x)),
+                          z3.Not(z3.Contains(x, SV('/../'))))
+    V.ctx.assume(z3.And(nd(rest), rest != SV(''),
+                        z3.Not(z3.SuffixOf(SV('/'), rest)),
+                        base != SV(''), base != SV('.'), base != SV('..'),
+                        z3.Not(z3.Contains(base, SV('/')))))
+    return [('rest-slash-base', nd(z3.Concat(rest, SV('/'), base))),
+            ('base-alone', nd(base))]
 
 
 class ForFile(Contract):
@@ -568,8 +595,24 @@ class ForFile(Contract):
         # the root directory, and the volume is what volume_of returns
         np_ = spec.normpath(V.ctx, T(a['path']))
         return [z3.Not(ShouldSkip.spec(V.ctx, T(a['path']))),
+                T(a['path']) != SV(''),      # '' never exists (lexists)
                 np_ != SV('/'), np_ != SV('//'),
                 T(a['volume_top_dir']) != SV('')]
+
+    @staticmethod
+    def _nodotdot_structural(ctx, r, base):
+        """the relative location is `base` or rest/base with rest free of '..'
+        components (put/lemma/rest-of-a-clean-path) and base a real name: by
+        put/lemma/joining-keeps-dotdot-out it has no '..' component"""
+        rel = ctx.ghost.get('parent_rel')
+        good_base = z3.And(base != SV(''), base != SV('.'), base != SV('..'),
+                           z3.Not(z3.Contains(base, SV('/'))))
+        if rel == 0:
+            return z3.And(r == base, good_base)
+        if rel == 1:
+            rest = ctx.ghost['rest']
+            return z3.And(r == z3.Concat(rest, SV('/'), base), good_base)
+        return z3.BoolVal(True)
 
     @staticmethod
     def parts(ctx, fs, path):
@@ -598,6 +641,8 @@ class ForFile(Contract):
              z3.Implies(under, spec.join(vol, r, ctx=ctx) == absolute)),
             ('relative-location-is-relative',
              z3.Implies(under, z3.Not(z3.PrefixOf(SV('/'), r)))),
+            ('relative-location-has-no-dotdot',
+             self._nodotdot_structural(ctx, r, base)),
             ('outside-the-volume-stays-absolute',
              z3.Implies(z3.Not(under), r == absolute)),
             ('only-the-parent-is-resolved', spec.basename(ctx, r) == base),
@@ -997,6 +1042,7 @@ class MakeTrashinfoData(Contract):
     def pre(self, V, a):
         np_ = spec.normpath(V.ctx, T(a['path']))
         return [z3.Not(ShouldSkip.spec(V.ctx, T(a['path']))),
+                T(a['path']) != SV(''),
                 np_ != SV('/'), np_ != SV('//')]
 
     def post(self, V, a, out):
@@ -1020,8 +1066,6 @@ class MakeTrashinfoData(Contract):
         res.append(('info-dir-of-the-candidate',
                     T(info_dir) == spec.join(td, SV('info'), ctx=ctx)))
         res.append(('content-is-the-spec-text-for-the-location-and-now',
-                    content.t == spec.utf8_f(trashinfo_text(loc, fa['deletion_date'].us))))
-        res.append(('content-is-ascii-so-utf8-is-the-identity',
                     content.t == trashinfo_text(loc, fa['deletion_date'].us)))
         pm = a['candidate'].items[2].attrs['name']
         vol = T(a['candidate'].items[1])
